@@ -293,13 +293,14 @@ def run_check(spec, argv):
     # 2. tie stage
     okh, outh, build_s, binpath = build_harness(spec["bin"])
     lines, verdicts = [], []
-    cases_file = os.path.join(WORK, f"{pid}.cases")
+    run_tag = f"{pid}.{os.getpid()}"           # per-run work files: concurrent runs of one check must not share them
+    cases_file = os.path.join(WORK, f"{run_tag}.cases")
     if not okh:
         problems.append(("harness-build", outh))
     elif okd:
         if replay:
             rp = json.load(open(replay))
-            tmp = os.path.join(WORK, f"{pid}.replay.in")
+            tmp = os.path.join(WORK, f"{run_tag}.replay.in")
             open(tmp, "w").write("\n".join(rp.get("cases", [])) + "\n")
             rc, out = sh(f"{binpath} --replay {tmp} --out {cases_file} --tier {tier}", timeout=3000)
         else:
@@ -309,7 +310,7 @@ def run_check(spec, argv):
                          + spec.get("extra_runner_args", ""), timeout=spec.get("runner_timeout", 3000))
             if os.path.isdir(corpus) and rc == 0:
                 for fn in sorted(os.listdir(corpus)):
-                    tmpo = os.path.join(WORK, f"{pid}.corpus.out")
+                    tmpo = os.path.join(WORK, f"{run_tag}.corpus.out")
                     rc2, out2 = sh(f"{binpath} --replay {os.path.join(corpus, fn)} --out {tmpo} --tier {tier}", timeout=600)
                     if rc2 == 0:
                         open(cases_file, "a").write(open(tmpo).read())
@@ -358,7 +359,7 @@ def run_check(spec, argv):
         # which the property itself fails (the driver evaluates the property predicate on the
         # implementation's output whenever the acceptor rejects).
         for k in range(spec.get("search_rounds", 3)):
-            sf = os.path.join(WORK, f"{pid}.search{k}.cases")
+            sf = os.path.join(WORK, f"{run_tag}.search{k}.cases")
             rc, out = sh(f"{binpath} --seed {seed * 7919 + 104729 * (k + 1)} --n {spec.get('search_n', spec['sizes']['thorough'])} "
                          f"--tier thorough --out {sf} " + spec.get("extra_runner_args", ""), timeout=3000)
             if rc != 0:
@@ -443,6 +444,14 @@ def run_check(spec, argv):
         cov.update(spec["extra_coverage"](lines, verdicts))
     if not replay:
         write_evidence(pid, tier, seed, cov, spec.get("assumptions", []), time.time() - t0, nviol)
+    try:
+        if os.path.exists(cases_file) and not replay and REPO == "/repo" and os.path.getsize(cases_file) < 300_000_000:
+            os.replace(cases_file, os.path.join(WORK, f"{pid}.cases"))
+        for fn in os.listdir(WORK):
+            if fn.startswith(run_tag + "."):
+                os.remove(os.path.join(WORK, fn))
+    except OSError:
+        pass
     print(f"{pid}: tier={tier} seed={seed} theorems={pr['discharged']}/{pr['obligations']} "
           f"tie_cases={len(lines)} diffs={len(diffs)} errors={len(errors)} viols={len(viols)} "
           f"known={len(known_lines)} wall={time.time() - t0:.1f}s -> exit {exit_code}")
